@@ -45,6 +45,8 @@ var c20Sources = []string{
 	"package pkg\n\nimport str \"strings\"\n\nvar B = str.Repeat(\"b\", 2)\n",
 	"package pkg\n\n// C has no imports.\nconst C = 3\n",
 	"package pkg\n\nimport (\n\t\"bytes\"\n\t\"io\"\n)\n\nfunc D(w io.Writer) { w.Write(bytes.NewBufferString(\"d\").Bytes()) }\n",
+	// generated code: a //line directive above the package clause names another file (goyacc style)
+	"//line grammar.y:2\npackage pkg\n\nimport \"sort\"\n\n//line grammar.y:10\nfunc E(x []int) { sort.Ints(x) }\n",
 }
 
 type saveObs struct {
@@ -101,6 +103,9 @@ func c20Run(pick []int, dirs int, edited []bool, failFile int) saveObs {
 	other := filepath.Join(root, "d0", "unrelated.txt")
 	os.WriteFile(other, []byte("keep"), 0644)
 	os.WriteFile(filepath.Join(root, "d0", "zz_other.go"), []byte("package pkg\n"), 0644)
+	for i := 0; i < dirs; i++ { // the file a //line directive may name
+		os.WriteFile(filepath.Join(root, fmt.Sprintf("d%d", i), "grammar.y"), []byte("%{ grammar %}\n"), 0644)
+	}
 	before := snapshotDir(root)
 	// a write is observed through the modification time, so that rewriting identical bytes counts
 	old := time.Now().Add(-48 * time.Hour).Truncate(time.Second)
